@@ -163,6 +163,7 @@ def main(argv=None):
     violations, known_hits, harness_errors = [], {}, []
     reach = {}
     by_id = {c["id"]: c for c in cases}
+    witness = {r["id"]: r.get("sample") for r in results if r.get("violations")}
     for r in results:
         if r["status"] == "meta":
             for f, n in r.get("reach", {}).items():
@@ -223,7 +224,8 @@ def main(argv=None):
             path = os.path.join(rdir, f"{cid}.json")
             with open(path, "w") as fh:
                 json.dump(
-                    {"property": pid, "case": by_id.get(cid), "violations": [x for x in violations if x["case_id"] == cid][:10],
+                    {"property": pid, "case": by_id.get(cid), "witness": witness.get(cid),
+                     "violations": [x for x in violations if x["case_id"] == cid][:10],
                      "repo_src_hash": rh, "seed": seed, "tier": tier}, fh, indent=1, default=str)
             replay_paths.append(path)
 
